@@ -283,6 +283,13 @@ func readAllPlan(r io.Reader, plan []int) ([]byte, error) {
 
 // encryptLib encrypts with the library under test.
 func encryptLib(recs []age.Recipient, plain []byte, segs []int, withArmor bool) ([]byte, error) {
+	return encryptLibVia(recs, plain, segs, withArmor, "")
+}
+
+// encryptLibVia: with copyMode "data-eof" / "then-eof" the plaintext reaches the encrypting writer through
+// io.Copy from a source without WriteTo that hands out one segment per Read, the last one together with
+// io.EOF or before a separate (0, io.EOF).
+func encryptLibVia(recs []age.Recipient, plain []byte, segs []int, withArmor bool, copyMode string) ([]byte, error) {
 	var out bytes.Buffer
 	var dst io.Writer = &out
 	var aw io.WriteCloser
@@ -298,7 +305,11 @@ func encryptLib(recs []age.Recipient, plain []byte, segs []int, withArmor bool) 
 	if err != nil {
 		return nil, fmt.Errorf("Encrypt: %w", err)
 	}
-	if _, err := writeSegs(w, plain, segs); err != nil {
+	if copyMode != "" {
+		if n, err := io.Copy(w, &c08SegReader{data: plain, segs: append([]int{}, segs...), withEOF: copyMode == "data-eof"}); err != nil || n != int64(len(plain)) {
+			return nil, fmt.Errorf("io.Copy into the encrypting writer took %d of %d bytes: %v", n, len(plain), err)
+		}
+	} else if _, err := writeSegs(w, plain, segs); err != nil {
 		return nil, fmt.Errorf("Write: %w", err)
 	}
 	if err := w.Close(); err != nil {
